@@ -197,6 +197,19 @@ def main():
     cand |= set(isa)
     cand |= {'foo', 'addx', 'subx', 'brxx', 'sex', 'clx', 'b', 'se', 'cl', 'br', 'ldx', 'stx', 'inx', 'r', 'r1', 'x'}
     cand = sorted(cand)
+    # directive names: every variant of `enum Directive` (static scan), lower-cased as strum serialises them,
+    # plus the names the model was written with and decoys
+    dsrc = open(os.path.join(REPO, 'src', 'directive.rs')).read()
+    m = re.search(r'pub enum Directive\s*\{(.*?)\n\}', dsrc, re.S)
+    if not m:
+        raise SystemExit('gen: cannot find enum Directive')
+    body = re.sub(r'///[^\n]*', '', m.group(1))
+    body = re.sub(r'#\[[^\]]*\]', '', body)
+    variants = re.findall(r'\b([A-Z][A-Za-z0-9]*)\b\s*(?:\([^)]*\))?\s*,', body)
+    dcand = {v.lower() for v in variants} | set('''byte cseg csegsize db def device dseg dw endm endmacro equ eseg exit include includepath list
+        listmac macro nolist org set define else elif endif error if ifdef ifndef message dd dq undef warning overlap nooverlap pragma'''.split())
+    dcand |= {'custom', 'nosuch', 'b', 'dbx', 'elseif', 'endmac', 'ifdefined', 'incl', 'mac', 'msg'}
+    cand += ['@dir ' + d for d in sorted(dcand)]
     p = subprocess.run([HARNESS, 'extract'], input='\n'.join(cand) + '\n', capture_output=True, text=True)
     if p.returncode != 0:
         sys.stderr.write(p.stderr)
@@ -211,6 +224,21 @@ def main():
     kw = [r for r in rows if r[0] == 'KW']
     out.append(',\n'.join(f'  ({chars(r[1])}, {op_lean(r[2])})' for r in kw if r[2] != '-'))
     out.append(']')
+    out.append('')
+    # directive names
+    dirs = [r for r in rows if r[0] == 'DIR']
+    dot = {r[1][1:]: r[2] for r in dirs if r[1][0] == '.'}
+    hsh = {r[1][1:]: r[2] for r in dirs if r[1][0] == '#'}
+    out.append('/-- `document::directive(".name")` for every candidate name that is a standard directive (the others parse to `Custom`) -/')
+    out.append('def directiveTable : List (Str × Directive) := [')
+    def dlean(v):
+        n = v.lower()
+        return 'Directive.«%s»' % n
+    out.append(',\n'.join(f'  ({chars(k)}, {dlean(v)})' for k, v in sorted(dot.items()) if v not in ('Custom', '-')))
+    out.append(']')
+    out.append('')
+    out.append('/-- `#name` reads like `.name` for every candidate -/')
+    out.append(f'def hashLikeDot : Bool := {"true" if dot == hsh else "false"}')
     out.append('')
     out.append('/-- `Operation::info` : (operation, reduced core?, length in words, base opcode). -/')
     out.append('def infoTable : List (Op × Bool × Nat × Nat) := [')
